@@ -345,7 +345,15 @@ func RenderZipkin(r *rand.Rand, c SpanCase, ndjson bool) Request {
 	if ndjson {
 		rq.Proto = "zipkin-ndjson"
 		rq.ContentType = "ndjson"
-		rq.Body = []byte(strings.Join(items, "\n") + "\n")
+		// framing: LF after every line, LF as separator only (the last line ends with the body), or CRLF
+		switch r.Intn(4) {
+		case 0:
+			rq.Body = []byte(strings.Join(items, "\n"))
+		case 1:
+			rq.Body = []byte(strings.Join(items, "\r\n") + "\r\n")
+		default:
+			rq.Body = []byte(strings.Join(items, "\n") + "\n")
+		}
 	} else {
 		rq.Body = []byte("[" + strings.Join(items, ",") + "]")
 	}
